@@ -38,7 +38,8 @@ pub open spec fn db_del(d: Db, table: int, k: Seq<u8>) -> Db { Db { t: d.t.inser
 // the world outside Rust values: what LMDB has committed and what the event map file holds
 //   committed : LMDB's last committed state           map / map_end : bytes of the event map file and its end marker
 //   events    : ghost directory of the events appended so far (offset -> bytes), tied to `map` by world_inv
-pub struct World { pub committed: Db, pub map: Seq<u8>, pub map_end: int, pub events: Map<int, Seq<u8>> }
+//   file_len  : length of the event map file          flc : the EventStore's cached copy of it (an AtomicUsize)
+pub struct World { pub committed: Db, pub map: Seq<u8>, pub map_end: int, pub events: Map<int, Seq<u8>>, pub file_len: int, pub flc: int }
 
 pub struct Bytes { }
 pub struct Unit { }
@@ -60,6 +61,7 @@ impl<'a> RwTxn<'a> {
             r is Ok ==> final(w).committed == self.cur@,
             r is Err ==> final(w).committed == old(w).committed,
             final(w).map == old(w).map, final(w).map_end == old(w).map_end, final(w).events == old(w).events,
+            final(w).file_len == old(w).file_len, final(w).flc == old(w).flc,
     { unimplemented!() }
 }
 
